@@ -30,7 +30,8 @@ import types
 from ..translate import c14 as tr
 
 PROPERTY = "C14"
-CASE_TIMEOUT = 30  # s of wall clock per case in pool workers (runner watchdog): a case that spins forever is a verdict, not exit 2
+CASE_TIMEOUT = 120  # s of WALL clock per case in pool workers (runner watchdog, second line of defence: every call into the code under test is
+# bounded by the CPU-time guard below).  Was 30: a 430-event generate_events history (5 s of CPU) ran into it on a machine with load 65.
 THEOREM_MODULE = "NemoVerif.Theorems.C14"
 RULE = ("program: 1-2 dialog flows (distinct start intents) + 0-2 subflows over user/bot/execute/set/if-else/while/"
         "break/continue/do, nesting <= 4, plus dedicated nested-`do` chain programs (depth 2-3, inner call in last position) and computation-loop programs (counters/accumulators, iterations without a blocking statement), if/if-else trees inside counter loops at every nesting depth (both condition values while the loop runs), context-dependent subflows called several times; condensed re-entry histories (the start intent right after the flow completed or was aborted); history: produced by walking the program with the reference interpreter, "
@@ -607,12 +608,28 @@ def g_doloop_program(rng, tier):
             body.append(nonblocking())
         return body
 
+    def quick_body(c):
+        """a subflow that returns IMMEDIATELY in some (or all) executions: only assignments, or its step statements under a
+        condition on the caller's counter — the same `do` is then executed several times within one event, the earlier
+        executions having returned without leaving an instance behind"""
+        body = [nonblocking()]
+        if rng.random() < 0.65:
+            a = rng.choice([0, 1, 1, 2])
+            cond = {"bin": [rng.choice(["eq", "ge", "eq"]), var(c), lit(a)]}
+            then = [blocking()] + ([nonblocking()] if rng.random() < 0.4 else [])
+            body.append({"if": [cond, then, [] if rng.random() < 0.6 else [{"set": ["t", {"bin": ["add", var("t"), lit(2)]}]}]]})
+        if rng.random() < 0.3:
+            body.append({"set": ["t", {"bin": ["add", var("t"), var(c)]}]})
+        return body
+
     subs = []
     shape = rng.choice(["plain", "plain", "plain", "under_if", "continue", "inner_loop", "loop_in_sub", "nested_callee",
                         "callee_loop", "alternate", "twice_seq", "twice_branch", "two_flows"])
     control = rng.random() < 0.15
-    subs.append({"name": "s0", "sub": True, "body": leaf_body()})
-    k = rng.choice([2, 2, 3])
+    # 30 % of the loop shapes: the callee returns immediately in some executions (see quick_body)
+    quick = shape in ("plain", "under_if", "continue", "inner_loop", "alternate", "twice_branch", "twice_seq") and rng.random() < 0.3
+    subs.append({"name": "s0", "sub": True, "body": quick_body("j" if shape == "inner_loop" else ("x" if shape == "twice_seq" else "i")) if quick else leaf_body()})
+    k = 3 if quick else rng.choice([2, 2, 3])
     inc = lambda c: {"set": [c, {"bin": ["add", var(c), lit(1)]}]}  # noqa: E731
 
     def do_loop(c, callee, k, variant):
@@ -713,7 +730,8 @@ def _rename_do(stmts, m):
 
 
 def same_do_again_profile(flows):
-    """AST-level: does some `do` sit in a loop body (any depth), and is the same subflow called at two places"""
+    """AST-level: does some `do` sit in a loop body (any depth), is the same subflow called at two places, and is some
+    called subflow free of unconditional step statements (it may return immediately)"""
     t = set()
     names = []
 
@@ -733,6 +751,23 @@ def same_do_again_profile(flows):
         walk(f["body"], 0)
     if len(names) != len(set(names)):
         t.add("do:same-subflow-at-two-places")
+    in_loop = set()
+
+    def walk2(stmts, wd):
+        for s in stmts:
+            if "do" in s and wd:
+                in_loop.add(s["do"])
+            elif "if" in s:
+                walk2(s["if"][1], wd)
+                walk2(s["if"][2], wd)
+            elif "while" in s:
+                walk2(s["while"][1], wd + 1)
+
+    for f in flows:
+        walk2(f["body"], 0)
+    for f in flows:
+        if f["sub"] and f["name"] in in_loop and not any(("b" in x or "u" in x or "x" in x or "do" in x or "while" in x) for x in f["body"]):
+            t.add("do-in-while:callee-may-return-immediately")
     return t
 
 
@@ -1604,6 +1639,17 @@ def decide(history_real, cfgs, rails_config=None):
         return {"exc": type(e).__name__ + ":" + str(e)[:80]}
 
 
+def canon_state(st):
+    """the flow states of a real State up to the NAMES of the uids: [flow id, head, status, index of the FIRST flow state
+    whose uid equals `interrupted_by` (what the resume loop's lookup finds); -1 = None, -2 = no such flow state]"""
+    uids = [fs.uid for fs in st.flow_states]
+    out = []
+    for fs in st.flow_states:
+        by = -1 if fs.interrupted_by is None else (uids.index(fs.interrupted_by) if fs.interrupted_by in uids else -2)
+        out.append([fs.flow_id, fs.head, fs.status.name, by])
+    return out
+
+
 def _uid_watch(w, k, st):
     """Recorded on every state the real compute_next_state returns: the uids of its flow states (the hypothesis
     `UidsOK` of the Lean theorems: pairwise distinct), dangling `interrupted_by` references, and whether a COMPLETED and
@@ -1632,30 +1678,50 @@ def zombie_flags(history, cfgs_factory, uidw=None):
     if uidw is None:
         uidw = {"states": 0, "max_flows": 0, "dup": None, "twin": 0, "dangling": None}
 
-    def walk(actual):
-        st = fl.State(context={}, flow_states=[], flow_configs=cfgs_factory(), rails_config=None)
-        out = []
-        z = False
-        for ev in actual:
-            try:
-                st = guarded(fl.compute_next_state, st, copy.deepcopy(to_real_event(ev)))
-                if ev == {"e": "bot", "i": "stop"}:
-                    st.flow_states = []
-            except (Exception, _Hang):  # noqa
-                out.extend([z] * (len(actual) - len(out)))
-                return out
-            z = z or any(fs.status == fl.FlowStatus.ACTIVE and isinstance(fs.head, int) and fs.head < 0 for fs in st.flow_states)
-            out.append(z)
-            _uid_watch(uidw, len(out), st)
-        return out
+    # One incremental walk: the actual history of prefix k (hide_prev_turn applied) extends that of prefix k-1 by one
+    # event except at a `hide` event, where the walk starts again on the shortened history (a walk per prefix made
+    # histories with hidden turns quadratic in compute_next_state calls).
+    w = {"st": None, "fed": [], "z": False, "dead": False, "canon": []}
 
-    if not any(ev["e"] == "hide" for ev in history):
-        return [False] + walk(history)
+    def restart():
+        w.update(st=fl.State(context={}, flow_states=[], flow_configs=cfgs_factory(), rails_config=None), fed=[], z=False, dead=False, canon=[])
+
+    def feed(ev):
+        w["fed"].append(ev)
+        if w["dead"]:
+            return
+        try:
+            st = guarded(fl.compute_next_state, w["st"], copy.deepcopy(to_real_event(ev)))
+            if ev == {"e": "bot", "i": "stop"}:
+                st.flow_states = []
+        except (Exception, _Hang):  # noqa
+            w["dead"] = True       # compute_next_state raised / did not return: no state from here on
+            w["canon"] = None
+            return
+        w["st"] = st
+        w["z"] = w["z"] or any(fs.status == fl.FlowStatus.ACTIVE and isinstance(fs.head, int) and fs.head < 0 for fs in st.flow_states)
+        _uid_watch(uidw, len(w["fed"]), st)
+        w["canon"] = canon_state(st)
+
+    restart()
     flags = [False]
+    states = [[]]   # states[k] = canonical state after prefix k (None where compute_next_state raised / did not return)
+    hidden = any(ev["e"] == "hide" for ev in history)
     for k in range(1, len(history) + 1):
-        a = cut_history(history[:k])
-        w = walk(a) if a else []
-        flags.append(bool(w and w[-1]) or flags[-1])
+        a = cut_history(history[:k]) if hidden else history[:k]
+        if a is None:
+            flags.append(flags[-1])
+            states.append(None)
+            continue
+        if len(a) == len(w["fed"]) + 1 and a[:-1] == w["fed"]:
+            feed(a[-1])
+        elif a != w["fed"]:
+            restart()
+            for ev in a:
+                feed(ev)
+        flags.append(bool(a and w["z"]) or flags[-1])
+        states.append([] if not a else (list(w["canon"]) if w["canon"] is not None else None))
+    uidw["states_canon"] = states
     return flags
 
 
@@ -2282,7 +2348,14 @@ def model_requests(case, obs):
         reqs.append({"m": "C14.follow", "id": mains[0]["name"], "prog": prog_for_model(mains[0]["body"]),
                      "lib": [{"name": f["name"], "prog": prog_for_model(f["body"])} for f in case["flows"] if f["sub"]],
                      "history": obs["history"]})
+    # the interpreter STATE after every prefix, up to uid renaming (programs with subflow calls: where uids matter)
+    if _has_do(case["flows"]) and (obs.get("uids") or {}).get("states_canon") is not None:
+        reqs.append({"m": "C14.states", "flows": obs["mcfgs"], "history": obs["history"]})
     return reqs
+
+
+def _has_do(flows):
+    return '"do"' in json.dumps(flows)
 
 
 def _norm_ctx(c):
@@ -2301,7 +2374,9 @@ def compare(case, obs, mouts):
     gens = mouts[1 + nf + ns:1 + nf + ns + ng]
     nsm = len(obs.get("slides_m", []))
     slides_m = mouts[1 + nf + ns + ng:1 + nf + ns + ng + nsm]
-    follow = mouts[1 + nf + ns + ng + nsm:]
+    rest = mouts[1 + nf + ns + ng + nsm:]
+    states_m = rest[-1:] if (rest and _has_do(case["flows"]) and (obs.get("uids") or {}).get("states_canon") is not None) else []
+    follow = rest[:len(rest) - len(states_m)]
     # compiler tie: parser output == compile(AST) == comp none (AST)
     for f, c, mc in zip(case["flows"], comps, obs["mcfgs"]):
         if c["compile"] != mc["elems"]:
@@ -2326,6 +2401,17 @@ def compare(case, obs, mouts):
         return (f"uid tie: the state after event {d['prefix']} holds several flow states with the SAME uid {d['uid']!r}: {d['flows']} "
                 f"(the model allocates fresh uids: call_subflow_uid_fresh / uids_pairwise_distinct; with equal uids the resume loop's "
                 f"lookup of `interrupted_by` can hit a COMPLETED older instance: call_site_uid_counterexample)")
+    # state tie: the flow states of the real State after every prefix == the model's (`replay`), up to the names of the uids
+    # (flow id, head, status, and WHICH flow state the `interrupted_by` lookup finds); the model's states satisfy UidsOK
+    # (uids_pairwise_distinct).  Not compared inside the region of the open finding (zombie flow states).
+    if states_m and not any(obs.get("zombie", [])):
+        for k, (a, b) in enumerate(zip(obs["uids"]["states_canon"], states_m[0]["res"])):
+            if a is None or b is None:
+                continue
+            if b.get("uids_ok") is not True:
+                return f"state tie: prefix {k}: the MODEL's state violates UidsOK (theorem uids_pairwise_distinct): {b}"
+            if a != b["flows"]:
+                return f"state tie: prefix {k}: flow states (flow, head, status, index of the interrupter found) impl {a} model {b['flows']}"
     # slide tie
     for s, m in zip(obs["slides"], slides):
         o = s["out"]
@@ -2612,6 +2698,14 @@ def signature(case, obs, msg):
         return "parse"
     if msg.startswith("uid tie"):
         return "uid-tie"
+    if msg.startswith("state tie"):
+        try:
+            k = int(msg.split("prefix ")[1].split(":")[0])
+            if obs["zombie"][k]:
+                return "flow-finished-on-start-event"
+        except Exception:  # noqa
+            pass
+        return "state-tie"
     return None
 
 
